@@ -43,6 +43,44 @@ def build_with_generated(wd, v, pid, byid):
     raise Infra("generated lexers keep failing to compile")
 
 
+def compare_run(wd, rd, rawpath, alpha, maxin, vhgen, v, pid, byid, replay, seen, exp_all):
+    """MC_GenLexer on one (definitions, alphabet) family + comparison of the real generated and runtime lexers"""
+    res = vlib.run_tlc(wd, "MC_GenLexer", modules=["StatefulLexer", "Regex", "Position"], extra_files=[os.path.join(rd, "cases.json")],
+                       consts={"MaxIn": maxin}, timeout=3000)
+    if not res.ok:
+        raise Infra("MC_GenLexer: %s" % (res.violation or res.error))
+    v.add_tlc(res)
+    exp = ["|".join(f) for f in vlib.parse_lines(res.lines, "EXPECT")]
+    if replay:
+        exp = [e for e in exp if e.split("|")[1] == replay["input"]]
+    exp_all += exp
+    ef = os.path.join(rd, "expect.txt")
+    open(ef, "w").write("\n".join(exp) + "\n")
+    out = vlib.vh(vhgen, ["gen-compare", rawpath, ef, "2"])
+    stats = None
+    for line in out.splitlines():
+        p = line.split("\t")
+        if p[0] == "GENDIFF":
+            k = p[1]
+            seen[k] = seen.get(k, 0) + 1
+            if seen[k] == 1:
+                v.violation("definition %s on input %r: generated %s, runtime %s" % (p[1], p[2], p[5], p[4]),
+                            {"property": pid, "kind": "gencompare", "alpha": alpha, "case": byid[p[1]], "input": p[2], "runtime": p[4], "generated": p[5]})
+        elif p[0] == "GENSYM":
+            v.violation("symbol table of generated lexer %s differs: %s" % (p[1], " ".join(p[2:])), {"property": pid, "kind": "gensym", "case": byid[p[1]], "detail": line})
+        elif p[0] == "GENBAD":
+            v.violation("definition %s on tolerated input %r: generated lexer %s" % (p[1], p[2], p[5]), {"property": pid, "kind": "gencompare", "alpha": alpha, "case": byid[p[1]], "input": p[2], "runtime": p[4], "generated": p[5]})
+        elif p[0] == "SPECDIFF":
+            log("note: runtime lexer differs from the specification on %s %r (C03's business): %s vs %s" % (p[1], p[2], p[5], p[4]))
+        elif p[0] == "NOGEN" and not any(byid.get(p[1]) is vv[1].get("case") for vv in v.violations):
+            raise Infra("no generated lexer for %s: %s" % (p[1], p[2]))
+        elif p[0] == "DONE":
+            stats = [int(x) for x in p[1:]]
+    if stats is None:
+        raise Infra("gen-compare did not finish")
+    return stats
+
+
 def run(pid, tier, args):
     v = Verdict(pid, tier)
     with vlib.workdir() as wd:
@@ -54,6 +92,12 @@ def run(pid, tier, args):
         if replay:
             alpha = replay["alpha"]
         byid = {c["id"]: c for c in cases}
+        runs = [(cases, alpha, maxin)]
+        if not replay:
+            fcases, falpha = gen_lex.fold_family()
+            runs.append((fcases, falpha, 3))
+            for c in fcases:
+                byid[c["id"]] = c
         rawpath = os.path.join(wd, "raw.json")
         gen_lex.write(rawpath, alpha, cases)
         out = vlib.vh(vhbin, ["lex-prep", rawpath, os.path.join(wd, "cases.json")])
@@ -61,46 +105,28 @@ def run(pid, tier, args):
         if not accepted:
             raise Infra("no rule map accepted")
         gen = build_generator(wd)
-        out = vlib.vh(vhbin, ["gen-lexers", rawpath, gen, os.path.join(wd, "harness-src", "genlex")])
+        allraw = os.path.join(wd, "allraw.json")
+        gen_lex.write(allraw, alpha, [c for (cs_, _, _) in runs for c in cs_])
+        out = vlib.vh(vhbin, ["gen-lexers", allraw, gen, os.path.join(wd, "harness-src", "genlex")])
         for l in out.splitlines():
             p = l.split("\t")
             if p[0] == "GEN" and p[2].startswith("failed"):
                 v.violation("generator fails on definition %s: %s" % (p[1], p[2]), {"property": pid, "kind": "generate", "case": byid[p[1]], "error": p[2]})
         vhgen = build_with_generated(wd, v, pid, byid)
-        # specification: lock-step run, tolerated set
-        res = vlib.run_tlc(wd, "MC_GenLexer", modules=["StatefulLexer", "Regex", "Position"], extra_files=[os.path.join(wd, "cases.json")],
-                           consts={"MaxIn": maxin}, timeout=3000)
-        if not res.ok:
-            raise Infra("MC_GenLexer: %s" % (res.violation or res.error))
-        v.add_tlc(res)
-        exp = ["|".join(f) for f in vlib.parse_lines(res.lines, "EXPECT")]
-        if replay:
-            exp = [e for e in exp if e.split("|")[1] == replay["input"]]
-        ef = os.path.join(wd, "expect.txt")
-        open(ef, "w").write("\n".join(exp) + "\n")
-        out = vlib.vh(vhgen, ["gen-compare", rawpath, ef, "2"])
+        tot = [0, 0, 0]
         seen = {}
-        stats = None
-        for line in out.splitlines():
-            p = line.split("\t")
-            if p[0] == "GENDIFF":
-                k = p[1]
-                seen[k] = seen.get(k, 0) + 1
-                if seen[k] == 1:
-                    v.violation("definition %s on input %r: generated %s, runtime %s" % (p[1], p[2], p[5], p[4]),
-                                {"property": pid, "kind": "gencompare", "alpha": alpha, "case": byid[p[1]], "input": p[2], "runtime": p[4], "generated": p[5]})
-            elif p[0] == "GENSYM":
-                v.violation("symbol table of generated lexer %s differs: %s" % (p[1], " ".join(p[2:])), {"property": pid, "kind": "gensym", "case": byid[p[1]], "detail": line})
-            elif p[0] == "GENBAD":
-                v.violation("definition %s on tolerated input %r: generated lexer %s" % (p[1], p[2], p[5]), {"property": pid, "kind": "gencompare", "alpha": alpha, "case": byid[p[1]], "input": p[2], "runtime": p[4], "generated": p[5]})
-            elif p[0] == "SPECDIFF":
-                log("note: runtime lexer differs from the specification on %s %r (C03's business): %s vs %s" % (p[1], p[2], p[5], p[4]))
-            elif p[0] == "NOGEN" and not any(byid.get(p[1]) is vv[1].get("case") for vv in v.violations):
-                raise Infra("no generated lexer for %s: %s" % (p[1], p[2]))
-            elif p[0] == "DONE":
-                stats = [int(x) for x in p[1:]]
-        if stats is None:
-            raise Infra("gen-compare did not finish")
+        exp_all = []
+        for ri, (rcases, ralpha, rmaxin) in enumerate(runs):
+            rd = os.path.join(wd, "run%d" % ri)
+            os.makedirs(rd)
+            rraw = os.path.join(rd, "raw.json")
+            gen_lex.write(rraw, ralpha, rcases)
+            vlib.vh(vhbin, ["lex-prep", rraw, os.path.join(rd, "cases.json")])
+            stats = compare_run(wd, rd, rraw, ralpha, rmaxin, vhgen, v, pid, byid, replay, seen, exp_all)
+            for k in range(3):
+                tot[k] += stats[k]
+        stats = tot + [len(seen)]
+        exp = exp_all
         v.validated(stats[0])
         v.notes["runs"] = {"compared": stats[0], "tolerated": stats[1], "tolerated_really_differ": stats[2], "definitions_with_differences": len(seen)}
         if not replay and stats[1] == 0:
